@@ -149,23 +149,31 @@ def memdep_edges(seq):
 # ---------------------------------------------------------------------------------------
 # longest path / cycles on an explicit graph
 
-def longest_chain(nodes, edges, exec_lat, full_lat=None):
+def longest_chain(nodes, edges, exec_lat, full_lat=None, own_load=None):
     """nodes in topological (program) order; edges {(u, v): w}.  Chain length =
-    sum of edge weights + exec latency of the last node.  Returns (L_exec, L_full)."""
-    best_in = {}
-    for v in nodes:
-        best_in[v] = 0.0
+    sum of edge weights + exec latency of the last node.  Returns (L_exec, L_full) where L_full
+    additionally allows the *full* latency of the last instruction when the chain enters it
+    through a register (i.e. not through its own load node, own_load[v])."""
+    own_load = own_load or {}
     order = list(nodes)
     pos = {v: k for k, v in enumerate(order)}
+    preds = {v: [] for v in order}
+    for (a, b), w in edges.items():
+        if a in pos and b in pos and pos[a] < pos[b]:
+            preds[b].append((a, w))
+    best_in = {}
+    best_reg = {}
     for v in order:
-        for (a, b), w in edges.items():
-            if b == v and pos[a] < pos[v]:
-                best_in[v] = max(best_in[v], best_in[a] + w)
+        best_in[v] = 0.0
+        best_reg[v] = 0.0
+        for a, w in preds[v]:
+            best_in[v] = max(best_in[v], best_in[a] + w)
+            if own_load.get(v) != a:
+                best_reg[v] = max(best_reg[v], best_in[a] + w)
     le = max((best_in[v] + exec_lat.get(v, 0.0) for v in order), default=0.0)
     lf = le
     if full_lat is not None:
-        lf = max((best_in[v] + max(exec_lat.get(v, 0.0), full_lat.get(v, 0.0)) for v in order),
-                 default=0.0)
+        lf = max([le] + [best_reg[v] + full_lat.get(v, 0.0) for v in order])
     return le, lf
 
 
